@@ -59,6 +59,8 @@ template <template <class...> class G> void binCase(const std::string &w, const 
     else if (w == "4") binLoad<G, unsigned int>(path); else if (w == "4f") binLoad<G, float>(path);
     else if (w == "8") binLoad<G, unsigned long long>(path); else if (w == "8f") binLoad<G, double>(path);
 }
+// the target of a writer holds older content (27 bytes, not a whole number of records of any width): the writer must replace it
+static void putStale(const std::string &path) { putFile(path, std::vector<unsigned char>(27, 0xEE)); }
 // records of a written file, sorted by (source, destination)
 static Obs sortedRecords(const std::vector<unsigned char> &b, size_t w) {
     size_t rs = 8 + w; std::vector<std::vector<unsigned char>> recs;
@@ -71,7 +73,7 @@ static Obs sortedRecords(const std::vector<unsigned char> &b, size_t w) {
 }
 template <template <class...> class G, class T> void binWrite(size_t n, const std::vector<std::string> &ops, size_t w) {
     G<T> g(n); for (auto &op : ops) applyOp(g, op);
-    std::string path = scratch("out.bin");
+    std::string path = scratch("out.bin"); putStale(path);
     emitGuarded([&] { writeBinaryEdgeList(g, path); return Segs{sortedRecords(getFile(path), w)}; });
     if (w == 8) guardedRaw([&] { auto h = loadBinaryEdgeList<G, T>(path); emitU64(h, true); });
     else emitGuarded([&] { auto h = loadBinaryEdgeList<G, T>(path); Segs S = ioObsL<G<T>, T>(h); S.insert(S.begin(), Obs{1}); return S; });
@@ -79,7 +81,7 @@ template <template <class...> class G, class T> void binWrite(size_t n, const st
 }
 template <template <class...> class G> void binWriteNone(size_t n, const std::vector<std::string> &ops) {
     G<NoLabel> g(n); for (auto &op : ops) applyOp(g, op);
-    std::string path = scratch("out.bin");
+    std::string path = scratch("out.bin"); putStale(path);
     emitGuarded([&] { writeBinaryEdgeList(g, path); return Segs{sortedRecords(getFile(path), 0)}; });
     emitGuarded([&] { auto h = loadBinaryEdgeList<G, NoLabel>(path); Segs S = ioObs(h); S.insert(S.begin(), Obs{1}); return S; });
     emitGuarded([&] { auto h = loadBinaryEdgeList<G, NoLabel>(path); if (h.getSize() < g.getSize()) h.resize(g.getSize()); return Segs{Obs{(Z)((h == g) && (g == h))}}; });
@@ -103,7 +105,7 @@ template <template <class...> class G> void txtCase(const std::string &lk, bool 
     else txtLoad<G, std::string>(path, names, [](const std::string &s) { return s; });
 }
 template <template <class...> class G> void txtwCase(const std::string &lk, size_t n, const std::vector<std::string> &ops) {
-    std::string path = scratch("out.txt");
+    std::string path = scratch("out.txt"); putStale(path);
     if (lk == "none") {
         G<NoLabel> g(n); for (auto &op : ops) applyOp(g, op);
         emitGuarded([&] { writeTextEdgeList(g, path); Obs o; for (auto c : getFile(path)) o.push_back(c); return Segs{o}; });
